@@ -291,6 +291,13 @@ func GenSession(prop string, seed uint64, thorough bool) *Scenario {
 				c.EIO = 4 // the WebTransport handshake is revision 4 only
 			}
 		}
+		if c.EIO == 3 && g.p(0.3) {
+			// old clients: no EIO parameter at all, or another number - the server takes everything but 4 for revision 3
+			c.EIO = g.pick(0, 2, 5)
+		} else if c.EIO == 4 && c.Transport != "webtransport" && !o.AllowEIO3 && g.p(0.05) {
+			// a revision-3 client knocking at a server that does not allow revision 3: refused with code 5, no session
+			c.EIO = g.pick(3, 0, 2, 5)
+		}
 		if g.p(p.pB64) {
 			c.B64 = true
 		}
@@ -323,7 +330,7 @@ func GenSession(prop string, seed uint64, thorough bool) *Scenario {
 		if g.p(p.fragP) {
 			c.Frag = []int{g.pick(1, 2, 3, 7), g.pick(1, 5, 64)}
 		}
-		if c.EIO == 3 {
+		if c.EIO != 4 {
 			// the client pings often enough: interval+timeout is the deadline
 			c.V3PingMs = g.pick(pi/2+1, pi, (pi+pt)/2)
 			if c.V3PingMs+6*c.LatencyMs+c.PollGapMs+10 >= pi+pt {
@@ -508,7 +515,7 @@ func GenSession(prop string, seed uint64, thorough bool) *Scenario {
 			op := AppOp{AtMs: at, Task: task, Op: "send", Sess: cl.Name, ID: fmt.Sprintf("%s.%s.%d", cl.Name, task, k), Size: g.size(&p), Binary: g.p(p.pBinary), CB: g.p(p.pCB), UseWrite: g.p(0.1)}
 			if !op.Binary && g.p(0.25) {
 				op.Chars = g.picks("html", "esc", "uni", "num", "html")
-				if op.Chars == "uni" && cl.EIO == 3 && !cl.B64 && !cl.JSONP && cl.Transport == "polling" && prop != "C16" {
+				if op.Chars == "uni" && cl.EIO != 4 && !cl.B64 && !cl.JSONP && cl.Transport == "polling" && prop != "C16" {
 					// a revision-3 binary-form payload (text and binary packets in one batch) with non-ASCII text trips a
 					// defect of the parser dependency (known finding of C16) that ends the client: keep it to C16's runs
 					op.Chars = "html"
